@@ -342,7 +342,22 @@ pub fn run(args: &Args) -> i32 {
     for g in 0..ng {
         let mut rng = Rng::derive(args.seed, 0x10C, g);
         let (bytes, name) = if g % 2 == 0 {
-            let m = crate::model::gen_movie(&mut rng, 3, 10, 24);
+            let mut m = crate::model::gen_movie(&mut rng, 3, 10, 24);
+            if g % 8 == 2 {
+                // user data with an item list, in every form C18 generates (meta box with and
+                // without its full-box header - the reader rewinds for the latter -, handler
+                // first or not, in moov or in a trak): each of those paths has its own seeks
+                let mut t = crate::props::c18::gen_tags(&mut rng, true);
+                for it in t.items.iter_mut() {
+                    it.2.truncate(24);
+                }
+                if g % 16 == 2 {
+                    t.meta_fullbox = false;
+                    t.hdlr_first = true;
+                }
+                m.tags = Some(t);
+                rep.add("generated_reader_subjects_with_an_item_list", if args.shard == 0 { 1 } else { 0 });
+            }
             let fl = crate::model::gen_file_layout(&mut rng, &m);
             (crate::model::build_plain(&m, &fl, &|_| {}).ser.bytes, format!("generated movie {}", g))
         } else {
